@@ -1,10 +1,10 @@
 use super::{
-    stringify::{stringify_reference, DisplaceData},
+    stringify::{precedence_level, stringify_reference, DisplaceData},
     ArrayNode, Node, Reference,
 };
 use crate::{
     constants::{LAST_COLUMN, LAST_ROW},
-    expressions::token::OpUnary,
+    expressions::token::{OpSum, OpUnary},
     language::Language,
     locale::Locale,
 };
@@ -58,11 +58,13 @@ fn move_function(
 ) -> String {
     let mut first = true;
     let mut arguments = "".to_string();
+    let arg_separator = argument_separator(locale);
     for el in args {
         if !first {
             arguments = format!(
-                "{},{}",
+                "{}{}{}",
                 arguments,
+                arg_separator,
                 to_string_moved(el, move_context, locale, language)
             );
         } else {
@@ -71,6 +73,15 @@ fn move_function(
         }
     }
     format!("{name}({arguments})")
+}
+
+/// The separator of function arguments: `,` unless the locale uses it as decimal separator
+fn argument_separator(locale: &Locale) -> &'static str {
+    if locale.numbers.symbols.decimal == "." {
+        ","
+    } else {
+        ";"
+    }
 }
 
 fn format_number_locale(number: f64, locale: &Locale) -> String {
@@ -103,6 +114,23 @@ pub(crate) fn to_string_array_node(
     }
 }
 
+/// Prints `node` for a position the parser reads at `min_level`, adding parentheses when the
+/// node binds looser than that (same rule as `stringify`).
+fn to_string_moved_at_level(
+    node: &Node,
+    min_level: u8,
+    move_context: &MoveContext,
+    locale: &Locale,
+    language: &Language,
+) -> String {
+    let s = to_string_moved(node, move_context, locale, language);
+    if precedence_level(node) < min_level {
+        format!("({s})")
+    } else {
+        s
+    }
+}
+
 fn to_string_moved(
     node: &Node,
     move_context: &MoveContext,
@@ -111,7 +139,13 @@ fn to_string_moved(
 ) -> String {
     use self::Node::*;
     match node {
-        BooleanKind(value) => format!("{value}").to_uppercase(),
+        BooleanKind(value) => {
+            if *value {
+                language.booleans.r#true.to_string()
+            } else {
+                language.booleans.r#false.to_string()
+            }
+        }
         NumberKind(number) => format_number_locale(*number, locale),
         StringKind(value) => format!("\"{value}\""),
         ReferenceKind {
@@ -372,59 +406,38 @@ fn to_string_moved(
         }
         OpRangeKind { left, right } => format!(
             "{}:{}",
-            to_string_moved(left, move_context, locale, language),
-            to_string_moved(right, move_context, locale, language),
+            to_string_moved_at_level(left, 7, move_context, locale, language),
+            to_string_moved_at_level(right, 8, move_context, locale, language),
         ),
         OpConcatenateKind { left, right } => format!(
             "{}&{}",
-            to_string_moved(left, move_context, locale, language),
-            to_string_moved(right, move_context, locale, language),
+            to_string_moved_at_level(left, 1, move_context, locale, language),
+            to_string_moved_at_level(right, 2, move_context, locale, language),
         ),
-        OpSumKind { kind, left, right } => format!(
-            "{}{}{}",
-            to_string_moved(left, move_context, locale, language),
-            kind,
-            to_string_moved(right, move_context, locale, language),
-        ),
+        OpSumKind { kind, left, right } => {
+            // same rule as `stringify`: `1-(2-3)` keeps its parentheses, `1+(2+3)` does not
+            let right_level = if matches!(kind, OpSum::Minus) { 3 } else { 2 };
+            format!(
+                "{}{}{}",
+                to_string_moved_at_level(left, 2, move_context, locale, language),
+                kind,
+                to_string_moved_at_level(right, right_level, move_context, locale, language),
+            )
+        }
         OpProductKind { kind, left, right } => {
-            let x = match **left {
-                OpSumKind { .. } => format!(
-                    "({})",
-                    to_string_moved(left, move_context, locale, language)
-                ),
-                CompareKind { .. } => format!(
-                    "({})",
-                    to_string_moved(left, move_context, locale, language)
-                ),
-                _ => to_string_moved(left, move_context, locale, language),
-            };
-            let y = match **right {
-                OpSumKind { .. } => format!(
-                    "({})",
-                    to_string_moved(right, move_context, locale, language)
-                ),
-                CompareKind { .. } => format!(
-                    "({})",
-                    to_string_moved(right, move_context, locale, language)
-                ),
-                OpProductKind { .. } => format!(
-                    "({})",
-                    to_string_moved(right, move_context, locale, language)
-                ),
-                UnaryKind { .. } => {
-                    format!(
-                        "({})",
-                        to_string_moved(right, move_context, locale, language)
-                    )
-                }
-                _ => to_string_moved(right, move_context, locale, language),
-            };
-            format!("{x}{kind}{y}")
+            // a signed right operand keeps its (harmless) parentheses: `2*(-3)`
+            let right_level = if matches!(**right, UnaryKind { .. }) { 6 } else { 4 };
+            format!(
+                "{}{}{}",
+                to_string_moved_at_level(left, 3, move_context, locale, language),
+                kind,
+                to_string_moved_at_level(right, right_level, move_context, locale, language),
+            )
         }
         OpPowerKind { left, right } => format!(
             "{}^{}",
-            to_string_moved(left, move_context, locale, language),
-            to_string_moved(right, move_context, locale, language),
+            to_string_moved_at_level(left, 4, move_context, locale, language),
+            to_string_moved_at_level(right, 5, move_context, locale, language),
         ),
         NamedFunctionKind { name, args, id: _ } => {
             move_function(name, args, move_context, locale, language)
@@ -434,44 +447,26 @@ fn to_string_moved(
             move_function(name, args, move_context, locale, language)
         }
         ArrayKind(args) => {
-            let mut first_row = true;
-            let mut matrix_string = String::new();
-
-            // Each element in `args` is assumed to be one "row" (itself a `Vec<T>`).
+            // same layout as `stringify`: rows separated by `;` (`\\` under decimal-comma
+            // locales), elements by `,` (`;`), one pair of braces
             let row_separator = if locale.numbers.symbols.decimal == "." {
                 ';'
             } else {
                 '\\'
             };
             let col_separator = if row_separator == ';' { ',' } else { ';' };
-            for row in args {
-                if !first_row {
-                    matrix_string.push(col_separator);
-                } else {
-                    first_row = false;
+            let mut matrix_string = String::new();
+            for (i, row) in args.iter().enumerate() {
+                if i > 0 {
+                    matrix_string.push(row_separator);
                 }
-
-                // Build the string for the current row
-                let mut first_col = true;
-                let mut row_string = String::new();
-                for el in row {
-                    if !first_col {
-                        row_string.push(row_separator);
-                    } else {
-                        first_col = false;
+                for (j, el) in row.iter().enumerate() {
+                    if j > 0 {
+                        matrix_string.push(col_separator);
                     }
-
-                    // Reuse your existing element-stringification function
-                    row_string.push_str(&to_string_array_node(el, locale, language));
+                    matrix_string.push_str(&to_string_array_node(el, locale, language));
                 }
-
-                // Enclose the row in braces
-                matrix_string.push('{');
-                matrix_string.push_str(&row_string);
-                matrix_string.push('}');
             }
-
-            // Enclose the whole matrix in braces
             format!("{{{matrix_string}}}")
         }
         DefinedNameKind((name, ..)) => name.to_string(),
@@ -479,19 +474,13 @@ fn to_string_moved(
         NamedVariableKind { name, id: _ } => name.to_string(),
         CompareKind { kind, left, right } => format!(
             "{}{}{}",
-            to_string_moved(left, move_context, locale, language),
+            to_string_moved_at_level(left, 0, move_context, locale, language),
             kind,
-            to_string_moved(right, move_context, locale, language),
+            to_string_moved_at_level(right, 1, move_context, locale, language),
         ),
         UnaryKind { kind, right } => match kind {
-            OpUnary::Minus => format!(
-                "-{}",
-                to_string_moved(right, move_context, locale, language)
-            ),
-            OpUnary::Percentage => format!(
-                "{}%",
-                to_string_moved(right, move_context, locale, language)
-            ),
+            OpUnary::Minus => format!("-{}", to_string_moved_at_level(right, 6, move_context, locale, language)),
+            OpUnary::Percentage => format!("{}%", to_string_moved_at_level(right, 5, move_context, locale, language)),
         },
         ErrorKind(kind) => kind.to_localized_error_string(language),
         ParseErrorKind { formula, .. } => formula.to_string(),
@@ -500,21 +489,24 @@ fn to_string_moved(
             automatic: _,
             child,
         } => {
-            format!(
-                "@{}",
-                to_string_moved(child, move_context, locale, language)
-            )
+            format!("@{}", to_string_moved_at_level(child, 8, move_context, locale, language))
         }
         SpillRangeOperator { child } => {
-            format!(
-                "{}#",
-                to_string_moved(child, move_context, locale, language)
-            )
+            format!("{}#", to_string_moved_at_level(child, 8, move_context, locale, language))
         }
         LambdaDefKind { parameters, body } => {
-            let mut parts: Vec<String> = parameters.iter().map(|p| p.name.clone()).collect();
+            let mut parts: Vec<String> = parameters
+                .iter()
+                .map(|p| {
+                    if p.is_optional {
+                        format!("[{}]", p.name)
+                    } else {
+                        p.name.clone()
+                    }
+                })
+                .collect();
             parts.push(to_string_moved(body, move_context, locale, language));
-            format!("LAMBDA({})", parts.join(","))
+            format!("LAMBDA({})", parts.join(argument_separator(locale)))
         }
         LambdaCallKind { lambda, args } => {
             let lambda_str = to_string_moved(lambda, move_context, locale, language);
@@ -522,7 +514,11 @@ fn to_string_moved(
                 .iter()
                 .map(|a| to_string_moved(a, move_context, locale, language))
                 .collect();
-            format!("{}({})", lambda_str, call_args.join(","))
+            format!(
+                "{}({})",
+                lambda_str,
+                call_args.join(argument_separator(locale))
+            )
         }
     }
 }
